@@ -93,6 +93,16 @@ def slices(tier):
             _cell(k, h, p, canon[p], "ZM-VFNS", pto, 0, kp)
             for k, h, p, pto, kp in itertools.product(KINDS, HEAVY, PROCS, [0, 1], ["thr", "nf4", "high"])
         ]
+        # non-canonical projectiles (anti-leptons, charged-lepton CC, neutrino NC/EM)
+        s["S_proj_q"] = [
+            _cell(k, h, p, pr, sc, 0, 0, "central")
+            for k, h, p, pr, sc in itertools.product(KINDS, HEAVY, PROCS, PROJ, ["ZM-VFNS", "FFNS3", "FFN03", "FONLL-FFNS4", "FONLL-FFN04"])
+            if pr != canon[p]
+        ] + [
+            _cell(k, h, p, pr, sc, 1, 0, "central")
+            for k, h, p, pr, sc in itertools.product(SF_KINDS, HEAVY, PROCS, PROJ, ["ZM-VFNS", "FFNS3", "FFN03"])
+            if pr != canon[p] and not (sc == "FFN03" and h != "charm")
+        ]
     else:
         s["S_core"] = [
             _cell(k, h, p, canon[p], sc, pto, 0, "central")
@@ -168,7 +178,7 @@ def excluded(tier):
             * 7
             * 3
             * 4,
-            "quick tier: slices S_proj, S_kin (except ZM-VFNS corners), PTO 2 of S_tmc, cross-section kinds at PTO 2,3 outside {ZM-VFNS,FFNS3,FFN03,FONLL-FFNS4}": 0,
+            "quick tier: S_proj beyond PTO 0 (all kinds, 5 schemes) and PTO 1 (structure functions, 3 schemes), S_kin (except ZM-VFNS corners), PTO 2 of S_tmc, cross-section kinds at PTO 2,3 outside {ZM-VFNS,FFNS3,FFN03,FONLL-FFNS4}": 0,
         }
     return {}
 
